@@ -79,6 +79,17 @@ impl Gen<'_> {
 
   fn gen_terms(&mut self) -> Terms {
     let h = u64::from(self.next_height());
+    if self.p.name == "mint" && self.rng.chance(2, 3) {
+      // windows that open / close within the next few blocks and small caps, so that mints at
+      // start-1/start/end-1/end and at cap-1/cap actually happen on short chains
+      let rng = &mut *self.rng;
+      return Terms {
+        amount: rng.chance(5, 6).then(|| *rng.pick(&[0u128, 1, 7, 1000, u128::MAX / 8])),
+        cap: Some(rng.range(1, 4).into()),
+        height: (rng.chance(1, 3).then(|| h + rng.below(3)), rng.chance(1, 3).then(|| h + 1 + rng.below(5))),
+        offset: (rng.chance(1, 3).then(|| rng.below(3)), rng.chance(1, 3).then(|| 1 + rng.below(5))),
+      };
+    }
     let rng = &mut *self.rng;
     let near = |rng: &mut Rng| match rng.below(8) {
       0 => 0,
